@@ -27,7 +27,8 @@ ASSUMPTIONS = [
     "Documented unpicklable / uncapturable classes skip exactly that path: MidMeasure and PauliMeasure skip capture (conftest skip_capture); "
     "MultiControlledX skips rebinding (conftest skip_bind_new_parameters); SparseHamiltonian (non-tensor data, _INSTANCES_TO_FAIL) skips the "
     "pytree / jax / capture / rebinding paths; TmpPauliRot, PauliError keep all paths except capture.",
-    "Capture binding is only exercised for operators whose wires are all integers (the library's assert_valid does the same).",
+    "Capture binding is only exercised for operators whose wires are all integers (the library's assert_valid does the same), for non-template "
+    "classes (the library's class-level validity sweep excludes templates), and compared with check_interface=False (jax evaluation returns jax arrays).",
     "Rebinding is checked only when the shifted spec is itself a valid instance (it is built through the public constructor first).",
 ]
 BUDGET = {"quick": {"examples": 900}, "thorough": {"examples": 60000, "shards": 16}}
@@ -140,9 +141,11 @@ def _shift(s, cls=None):
     return out
 
 
-def _arrays(obj, seen=None, depth=0):
-    """All numpy arrays reachable from an operator / measurement (data, hyperparameters, nested operators)."""
+def _arrays(obj, seen=None, depth=0, tag="other"):
+    """All (numpy array, owner tag) reachable from an operator / measurement (data, hyperparameters, nested operators);
+    tag 'legacy-data' marks arrays held in the .data of a legacy (non-Operator2) operator."""
     import pennylane as qp
+    from pennylane.core.operator.operator2 import Operator2
 
     seen = seen if seen is not None else set()
     out = []
@@ -150,13 +153,13 @@ def _arrays(obj, seen=None, depth=0):
         return out
     seen.add(id(obj))
     if isinstance(obj, np.ndarray):
-        return [obj] if obj.dtype != object else []
+        return [(obj, tag)] if obj.dtype != object else []
     if isinstance(obj, (list, tuple)):
         for x in obj:
-            out += _arrays(x, seen, depth + 1)
+            out += _arrays(x, seen, depth + 1, tag)
     elif isinstance(obj, dict):
         for x in obj.values():
-            out += _arrays(x, seen, depth + 1)
+            out += _arrays(x, seen, depth + 1, tag)
     elif isinstance(obj, (qp.operation.Operator, qp.measurements.MeasurementProcess)):
         for attr in ("data", "hyperparameters", "arguments", "obs", "_eigvals"):
             try:
@@ -164,7 +167,8 @@ def _arrays(obj, seen=None, depth=0):
             except Exception:  # noqa: BLE001
                 continue
             if v is not None:
-                out += _arrays(v, seen, depth + 1)
+                legacy = isinstance(obj, qp.operation.Operator) and not isinstance(obj, Operator2)
+                out += _arrays(v, seen, depth + 1, "legacy-data" if (attr == "data" and legacy) else "other")
     return out
 
 
@@ -203,7 +207,8 @@ def check(spec):
             raise Viol(f"{how}-type", f"{type(y).__name__} instead of {tname} for {a}", sig=f"{sig}:{how}", features={**feats, "path": how})
         if y is x:
             raise Viol(f"{how}-same-object", f"{how} returned the original object for {a}", sig=f"{sig}:{how}", features={**feats, "path": how})
-        if not _same(x, y):
+        same = _same(x, y) if how != "capture" else bool(qp.equal(x, y, check_interface=False, check_trainability=False))
+        if not same:
             raise Viol(f"{how}-not-equal", f"qp.equal(x, {how}(x)) is False for {a} -> {x!r} vs {y!r}", sig=f"{sig}:{how}", features={**feats, "path": how})
         labels.append("ok:" + how)
         return y
@@ -220,22 +225,28 @@ def check(spec):
             return jax.tree_util.tree_unflatten(struct, leaves)
         roundtrip("jax-pytree", jax_rt)
 
-    # deep copy shares no mutable array with the original
+    # deep copy shares no mutable array with the original (the legacy-operator bucket is deferred so that it does not mask the other paths)
+    pending = None
     mine = _arrays(x)
     theirs = _arrays(dc)
-    for u in theirs:
-        if any(np.shares_memory(u, v) for v in mine):
-            raise Viol("deepcopy-shares-memory", f"an array of deepcopy(x) shares memory with x for {a} -> {x!r}", sig=f"{sig}:deepcopy", features=feats)
-    for u in theirs:
+    for u, tag in theirs:
+        if any(np.shares_memory(u, v) for v, _ in mine):
+            legacy = tag == "legacy-data"  # Operator.__deepcopy__ copies ._data shallowly on purpose (comment in base.py): one bucket
+            pending = pending or Viol("deepcopy-shares-memory", f"an array ({tag}) of deepcopy(x) shares memory with x for {a} -> {x!r}",
+                       sig="legacy-operator-data" if legacy else f"{sig}:deepcopy", features={**feats, "legacy_operator_data": legacy})
+            if not legacy:
+                raise pending
+    for u, _ in theirs if pending is None else []:
         if u.flags.writeable and u.size:
             u[...] = 7 if u.dtype.kind in "iu" else (1 if u.dtype.kind == "b" else 0.777)
-    if not _same(x, c04._build(a)):  # noqa: SLF001
+    if pending is None and not _same(x, c04._build(a)):  # noqa: SLF001
         raise Viol("deepcopy-aliasing", f"overwriting the arrays of deepcopy(x) changed x for {a}", sig=f"{sig}:deepcopy", features=feats)
     if theirs:
         labels.append("deepcopy:arrays-independent")
 
     # capture primitive binding (integer wires only, operators only)
-    if is_op and all(isinstance(w, int) for w in x.wires) and not any(f"'{n}'" in names_in for n in NO_CAPTURE) and tname != "SubroutineOp":
+    templ = {n for n, (_, _, t) in zoo.ZOO.items() if "template" in t}
+    if (is_op and all(isinstance(w, int) for w in x.wires) and not any(f"'{n}'" in names_in for n in NO_CAPTURE | templ) and tname != "SubroutineOp"):
         import jax
 
         from pennylane.core.operator.operator2 import Operator2
@@ -289,5 +300,7 @@ def check(spec):
             labels.append("ok:bind")
         elif y is not None:
             labels.append("bind:shape-changed")
+    if pending is not None:
+        raise pending
     nested = any(isinstance(a.get(k), (dict, list)) for k in ("base", "operands", "obs"))
     return Result(bool(nested or a.get("p") or a.get("kw")), labels=labels)
